@@ -144,8 +144,27 @@ def code_sig(fn, generic):
     return _co_sig(co)
 
 
+_SCRATCH_PATH = None
+
+
+def _norm_const(c):
+    """a constant that mentions the scratch project directory (an implementation may well put the path of the
+    defining file into its generated code) must not make the twin, which lives in another directory, look different"""
+    global _SCRATCH_PATH
+    if isinstance(c, (str, bytes)):
+        if _SCRATCH_PATH is None:
+            import re
+            _SCRATCH_PATH = re.compile(r"[^'\"\s]*/bsim-\d{7}/w[^/]{7}/[^'\"\s]+")
+        if isinstance(c, str):
+            return _SCRATCH_PATH.sub("<ROOT>", c)
+        return _SCRATCH_PATH.sub("<ROOT>", c.decode("latin-1")).encode("latin-1")
+    if isinstance(c, tuple):
+        return tuple(_norm_const(x) for x in c)
+    return c
+
+
 def _co_sig(co):
-    consts = tuple(_co_sig(c) if isinstance(c, types.CodeType) else (type(c).__name__, c) for c in co.co_consts)
+    consts = tuple(_co_sig(c) if isinstance(c, types.CodeType) else (type(c).__name__, _norm_const(c)) for c in co.co_consts)
     return (co.co_code, consts, co.co_names, co.co_varnames, co.co_argcount)
 
 
@@ -467,21 +486,21 @@ class CacheEngineBase(Engine):
                                   and (fam[a][1], fam[a][2]) == (fam[b][1], fam[b][2])]
 
     # ---- the clean twin -----------------------------------------------------------------
-    def twin(self, modname, text, optimize=0):
+    def twin(self, modname, text, optimize=0, fileless=False):
         """per class of the defining module: what that declaration is and does when it is defined
         alone, by a pristine process (same interpreter optimisation level), on an empty cache"""
-        key = (modname, text, optimize)
+        key = (modname, text, optimize, fileless)
         if key in self.twins:
             return self.twins[key]
         import re
         head, *blocks = re.split(r"\n(?=class \w+\(Packet\):)", text)
-        res = [self._twin_one(head + "\n" + b, optimize) for b in blocks]
+        res = [self._twin_one(head + "\n" + b, optimize, fileless) for b in blocks]
         self.twins[key] = res
         return res
 
-    def _twin_one(self, text, optimize=0):
-        if (text, optimize) in self.twins:
-            return self.twins[(text, optimize)]
+    def _twin_one(self, text, optimize=0, fileless=False):
+        if (text, optimize, fileless) in self.twins:
+            return self.twins[(text, optimize, fileless)]
         saved = SEAM.save()
         root = project.fresh_dir(os.path.join(self.wdir, "twin"))
         with REAL_IO_OPEN(os.path.join(root, "defs.py"), "w") as f:
@@ -492,6 +511,7 @@ class CacheEngineBase(Engine):
         w.clock_faults = False
         p = w.spawn("twin", bytecode=False)
         p.optimize = optimize
+        p.fileless = fileless
         res = []
 
         def prog(proc):
@@ -510,7 +530,7 @@ class CacheEngineBase(Engine):
             w.run_alone(p, prog)
         finally:
             SEAM.restore(saved)
-        self.twins[(text, optimize)] = res[0]
+        self.twins[(text, optimize, fileless)] = res[0]
         return res[0]
 
     def check_proc(self, world, proc, label_prop):
@@ -523,7 +543,7 @@ class CacheEngineBase(Engine):
             PE = sys.modules["bisturi.packet"].PacketError
             Packet = sys.modules["bisturi.packet"].Packet
             for (modname, src, i, cls) in p.classes:
-                tw = self.twins[(modname, src, p.optimize)]
+                tw = self.twins[(modname, src, p.optimize, p.fileless)]
                 if i >= len(tw):
                     continue
                 tb, tp, tu = tw[i]
@@ -544,7 +564,7 @@ class CacheEngineBase(Engine):
                     return
         # twins need a world of their own: compute them before swapping the process in
         for (modname, src, i, cls) in proc.classes:
-            self.twin(modname, src, proc.optimize)
+            self.twin(modname, src, proc.optimize, proc.fileless)
 
         def observing(p):
             SEAM.inside = True          # probing is observation, not part of the experiment
@@ -625,7 +645,9 @@ class CacheEngineBase(Engine):
             for fn in sorted(REAL["listdir"](base)):
                 if fn.endswith(".py"):
                     with REAL_IO_OPEN(os.path.join(base, fn), "rb") as f:
-                        res.append((fn, f.read()))
+                        import re
+                        # paths of the two copies and whatever is hashed from them (the cookie) legitimately differ
+                        res.append((fn, re.sub(rb"[0-9a-f]{40}", b"<sha1>", _norm_const(f.read()))))
         except OSError:
             pass
         return res
@@ -637,7 +659,7 @@ class CacheEngineBase(Engine):
         """name the declaration whose generated code this is, if it is one of the family"""
         idx = 1 if which == "pack_impl" else 2
         for v in VNAMES:
-            tw = self.twins.get(("defs", defs_text([("Foo", v)]), 0))
+            tw = self.twins.get(("defs", defs_text([("Foo", v)]), 0, False))
             if tw and tw[0][idx] == sig:
                 return " (it is the code of variant %s)" % v
         return ""
